@@ -166,6 +166,16 @@ def beat_formula(ctx: Ctx) -> None:
         asg = {re.sub(rf"\b{re.escape(cv)}\b", "CELL", k): v for k, v in s_.atoms_in(Lcell).items()}
         decs.append(Dec(asg, tuple(toks), s_))
     ctx.floor("paths through the cell loop of _iter_measure", len(decs), 2)
+    row_level = set()
+    for s_ in sums:
+        if not any(e.kind == "for" and e.line == Lrow for e in s_.effects):
+            continue
+        for k_, (ls_, _n) in s_.where.items():
+            if Lrow in ls_ and Lcell not in ls_:
+                row_level.add(s_.plain(k_))
+    ctx.expect("R-ORDER", fi, "every row of the measure is decoded: nothing is decided about a row before its cells are read", not row_level, "",
+               f"the row loop tests {sorted(row_level)} before (or instead of) walking the row's cells: a row that is skipped or treated specially loses its notes "
+               "(a keysound number inside brackets, for instance, can look like empty cells)", node=fi.node)
     want = f"yield Note(beat=BEAT, column=COL, note_type=NoteType(CELL), player={pp}, keysound_index=KS[COL])"
     tjudge(ctx, "R-REBUILD", fi, "a note is built exactly for cells other than '0': beat == 4*measure + 4*row/rows (exact pair), column = the cell's index, NoteType(cell), "
            "player = the section index, keysound_index = the bracket value recorded for this column", decs, ["CELL == '0'"], lambda a: () if a["CELL == '0'"] else (want,),
@@ -385,19 +395,26 @@ def from_notes_fill(ctx: Ctx) -> None:
         if e.kind == "expr" and isinstance(v, ast.Call):
             f_ = v.func
             if isinstance(f_, ast.Name) and f_.id == pmf.name:
-                if not v.args and not v.keywords:
+                if (not v.args and not v.keywords) or (len(v.args) == 1 and not v.keywords and isinstance(v.args[0], (ast.List, ast.Tuple)) and not v.args[0].elts):
                     return ind + "blank measure"
                 return ind + "measure " + ", ".join(ast.unparse(a) for a in v.args)
             if isinstance(f_, ast.Attribute) and f_.attr == "write" and isinstance(f_.value, ast.Name) and f_.value.id == WR and len(v.args) == 1:
                 c = try_ev(ctx, fi, v.args[0])
+                if not isinstance(c, str):
+                    try:
+                        c = try_ev(ctx, fi, closed(s_, v.args[0], i))
+                    except Exception:
+                        c = None
                 if isinstance(c, str):
                     return ind + f"write {c!r}"
-                raise AnalysisError(f"{fi.fq}: the text written at line {e.line % 100000} is not a constant separator: {ast.unparse(v.args[0])[:80]}")
+                nonconst.append(f"line {e.line % 100000}: {ast.unparse(closed(s_, v.args[0], i))[:90]}")
+                return ind + "write? <computed text>"
             return ind + "other " + ast.unparse(v)
         if e.kind in ("store", "aug", "delete", "break", "continue", "raise", "yield", "return"):
             return ind + ("other " + e.text if e.kind not in ("break", "continue", "return") else e.kind)
         return None
 
+    nonconst: List[str] = []
     pl_decs, me_decs, post_decs = [], [], []
     for s_ in sums:
         has_p = any(e.kind == "for" and e.line == Lp for e in s_.effects)
@@ -412,6 +429,13 @@ def from_notes_fill(ctx: Ctx) -> None:
         tail = [t for t in (tok(s_, i, e, 0) for i, e in enumerate(s_.effects) if not e.loops and (idx is None or i > idx) and e.kind not in ("return",)) if t is not None and not t.startswith(f"{LP} := ")]
         asg = {k: v for k, v in s_.plain_assign().items() if not s_.where.get(k, ((), 0))[0]}
         post_decs.append(Dec(asg, (tuple(tail), "iterated" if has_p else "no note"), s_))
+    # a computed text (not a constant separator) cannot be compared with the expected separators: such paths are left out of the tables and
+    # reported as unrecognised at the end, unless a definite deviation shows on the paths that can be judged
+    has_q = lambda d: any("write? " in t for t in (d.outcome if not (d.outcome and isinstance(d.outcome[0], tuple)) else d.outcome[0]))
+    n_unknown = sum(1 for d in pl_decs + me_decs + post_decs if has_q(d))
+    pl_decs = [d for d in pl_decs if not has_q(d)]
+    me_decs = [d for d in me_decs if not has_q(d)]
+    post_decs = [d for d in post_decs if not has_q(d)]
     ADV, NF, NFM = f"{P_} > {LP}", f"{LP} > -1", f"{LM} > -1"
 
     def spec_player(a):
@@ -449,6 +473,8 @@ def from_notes_fill(ctx: Ctx) -> None:
     fit = p.func(f"{ND}.__iter__")
     splits = sorted({s[1] for c in calls(fit) for s in [_split_on(c)] if s})
     ctx.expect("R-TABLE", fi, "separators written ('&', ',') are the ones the reader splits on", splits == ["&", ","], str(splits), f"reader splits on {splits}", node=fi.node)
+    if n_unknown and not any(i_.verdict == "violation" and i_.clause == ctx.clause for i_ in ctx.instances):
+        raise AnalysisError(f"{fi.fq}: {n_unknown} path(s) write a computed text instead of a constant separator ({nonconst[0]}): not compared")
 
 
 def canon_k(t: str) -> str:
@@ -553,8 +579,15 @@ def from_notes_rows(ctx: Ctx) -> None:
                     else:
                         ok = False
                 seq = []
+                # a temporary holding the row's text (t = ''.join(X) + '\n' ; write(t)) is looked through
+                while j < len(effs) and effs[j].kind == "bind" and effs[j].loops == loops0 and isinstance(effs[j].target, ast.Name) and effs[j].value is not None \
+                        and f"''.join({X})" in ast.unparse(effs[j].value):
+                    j += 1
                 while j < len(effs) and effs[j].kind == "expr" and effs[j].loops == loops0 and ast.unparse(effs[j].value).startswith(f"{WR}.write("):
-                    parts = _sp(effs[j].value.args[0]) if len(effs[j].value.args) == 1 else None
+                    arg_ = effs[j].value.args[0] if len(effs[j].value.args) == 1 else None
+                    if isinstance(arg_, ast.Name):
+                        arg_ = _closed2(s_, arg_, j, keep=[X])
+                    parts = _sp(arg_) if arg_ is not None else None
                     if parts is None:
                         ok = False
                         break
@@ -1034,6 +1067,17 @@ def columns_rule(ctx: Ctx) -> None:
         return f"return len(NoteData._extract_keysound_indices({first}.strip().splitlines()[0].strip()))"
 
     eqv = {f"{F} >= 0": (G, True), f"{F} != -1": (G, True), f"{F} == -1": (G, False), f"{F} < 0": (G, False), f"',' in {n_}": (G, True), f"{F} >= 1": (G, True), f"{F} < 1": (G, False)}
+    # str.partition spelling: s.partition(',')[0] is s[:s.find(',')] when there is a comma and s itself when there is none; `or s` covers the
+    # empty prefix (comma in front, or empty text) - the same first measure in all four cases
+    PT = f"{n_}.partition(',')[0]"
+    decs_ = [Dec(dict(s_.plain_assign()), out(s_), s_) for s_ in gs]
+    if decs_ and all(set(d.assign) <= {PT} for d in decs_):
+        tmpl = "return len(NoteData._extract_keysound_indices({}.strip().splitlines()[0].strip()))"
+        good = all((d.outcome == tmpl.format(PT) if d.assign.get(PT) is True else d.outcome == tmpl.format(n_) if d.assign.get(PT) is False else d.outcome == tmpl.format(f"({PT} or {n_})")) for d in decs_)
+        if good:
+            ctx.ok("R-NULL", g, "the width is the length of the first row (first measure, first line, stripped) with keysound brackets removed", "first measure = text before the first comma (str.partition), "
+                   "or the whole text when that is empty", node=g.node)
+            return
     tjudge(ctx, "R-NULL", g, "the width is the length of the first row (first measure, first line, stripped) with keysound brackets removed; str.find() is checked for 'not found' before it bounds the slice",
            [Dec(dict(s_.plain_assign()), out(s_), s_) for s_ in gs], [G], spec, equiv=eqv,
            why="find() returns -1 when there is no comma, and the slice then silently drops the last character (single-measure note data)")
@@ -1055,11 +1099,21 @@ def keysound_extraction(ctx: Ctx) -> None:
 
     def out(s_):
         eff = []
+        tags = []
         for e in s_.effects:
             if e.kind in ("store", "aug", "delete", "expr"):
                 eff.append(closed_text(s_, e, keep=[line, ki]))
+                # does the statement itself read the row variable (or only temporaries computed from the row before it was cut)?
+                raw_names = {n.id for n in ast.walk(e.raw) if isinstance(n, ast.Name)} if isinstance(e.raw, ast.AST) else {line}
+                tags.append("store-independent" if e.kind == "store" and line not in raw_names else "other")
             elif e.kind == "bind" and isinstance(e.target, ast.Name) and e.target.id == line:
                 eff.append(closed_text(s_, e, keep=[line, ki]))
+                tags.append("cut")
+        # recording the index from values taken before the cut commutes with the cut: canonical order is record, then cut
+        for i in range(len(eff) - 1):
+            if tags[i] == "cut" and tags[i + 1] == "store-independent":
+                eff[i], eff[i + 1] = eff[i + 1], eff[i]
+                tags[i], tags[i + 1] = tags[i + 1], tags[i]
         k, v = s_.terminal()
         # where the row has a '[', str.find and str.index name the same position
         if s_.plain_assign().get(canon_k(HAS)) is True:
